@@ -83,24 +83,26 @@ CLAIMED.update({
 
 # clauses added in session 4 (round 4 of the seeded changes and the reports about the unchanged tree); DESIGN.md §4 "Session 4"
 EXTRA = {
- "C01": " Added later (DESIGN.md §4, Session 4): a refused replacement puts the old pattern back (IDX-ROLLBACK); writer and reader of the trie combine nested and remaining pairs in the same order (IDX-ORDER); the ancestor walk has a visited set (ANC-ONCE); an empty schedule is no schedule everywhere (SCHED-AGREE); the variable-key branch is tried whether or not the key is literal (IDX-KEYVAR); every sortable element type has a case in Less (LESS-COVERS); picast is idempotent (PICAST-IDEM); SortValues sorts a copy (MOD-INDEX); a candidate that went away during the scan is skipped (LOST-RULE-SKIP); no copy into a zero-length slice (COPY-EMPTY). Known finding: an unsortable event array fails the whole event (IDX-SORT-TOTAL).",
- "C02": " Added later: every addition to the term set passes the extractor's own filter (TERM-FILTER); indexed terms come from the prepared fact (TERM-PREPARED).",
- "C03": " Added later: TERM-PREPARED (the terms a pattern query relies on are those of the stored fact).",
- "C04": " Added later: the thunk builders do not look into the bindings before the thunk runs (THUNK-LAZY); `values` is tested against the action's own disposition (VALUES-OWN-DISP); DecodeString's result depends on the code (DECODE-DEP); IDX-ORDER; SortValues does not reorder the submitted event (MOD-INDEX).",
- "C06": " Added later: memory is written after Storage.Add succeeded or a failed write takes it out again (STORE-BEFORE-MEM; IndexedState.Add is a known finding); storage removal before the fact leaves memory (REM-STORE-FIRST); the add hook runs before Storage.Add (HOOK-BEFORE-STORE); the stored parents list is a value, never nil/aliased (PARENTS-VALUE).",
- "C07": " Added later: the ttl is consumed when it is turned into expires (EXP-TTL-CONSUMED); the clock is read after the state lock was taken (CLOCK-AFTER-LOCK); an absolute expires is not added to the clock (EXP-ABSOLUTE).",
- "C08": " Added later: TERM-FILTER (the cascade's search terms), REM-STORE-FIRST.",
- "C09": " Added later: every callback of the ancestor walk re-points the context (ANC-RESTORE); the walk has a visited set, so a diamond of parents is not a duplicate (ANC-ONCE); PARENTS-VALUE; COPY-EMPTY.",
- "C10": " Added later: rules embedded in an event are refused in a disabled location (GATE-FIRE); STORE-BEFORE-MEM (IndexedState.Add is a known finding); IDX-ROLLBACK.",
- "C11": " Added later: the lock-order graph over rulio's mutexes has no cycle (LOCK-ORDER); no append-insert clobbers the tail of a shared slice (APPEND-CLOBBER).",
- "C12": " Added later: LOCK-ORDER; values reachable from shared state are not written by readers (SHARED-WRITE); the failed-open clean-up re-checks under both locks (CACHE-EVICT).",
- "C13": " Added later: no call hands a dereferencing function the zero value of a variable no store has reached (NIL-ZERO-ARG); the error of the cache's Get originates in opening / the existence check only (CACHE-ERR-ORIGIN).",
- "C14": " Added later: ANC-RESTORE, THUNK-LAZY, every constructor parameter is used (CTOR-PARAM: the per-group script timeout reaches the location).",
- "C15": " Added later: the cron loop re-arms its timer on every wake-up (CRON-REARM); the timeline stays sorted (TIMELINE-ORDER); the add hook never leaves a refused replacement without its job (HOOK-ADD-KEEPS), unregisters a scheduled rule that is overwritten by something unscheduled (HOOK-REPLACE) and runs before storage is written (HOOK-BEFORE-STORE); a due time from cronexpr is stored only under an IsZero test (CRON-NEXT-ZERO); OneShotSchedule classifies the trimmed schedule (ONESHOT-AGREE); crolt request URLs carry their endpoint (CROLT-URL).",
- "C16": " Added later: CRON-REARM, TIMELINE-ORDER, CRON-NEXT-ZERO, time.Parse argument order (TIME-PARSE-ARGS), CROLT-URL, every store into Job.at is a UTC time (AT-UTC), writer and deleter of a job agree on the partition (PARTITION-AGREE), bolt errors inside transactions reach the closure's result (BOLT-ERR).",
- "C17": " Added later: get-or-create on the cache table is decided by presence (CACHE-GET-OR-CREATE); the in-use mark counts its users (PENDING-COUNT: known finding); CACHE-EVICT; with CachePending on every new entry is published before the table lock is released (CACHE-PENDING-SHARED); the two cache mutexes are taken in one order (LOCK-ORDER); every checked request looks at the creation marker, cached or not (EXIST-EVERY); Storage.Load does not write the storage object (LOAD-PURE).",
- "C19": " Added later: the key gates fail closed when the key cannot be read (GATE-FAILCLOSED); the parent list is handed out only behind CheckRead (GATE-PARENTS); the size of a disabled location is not reported (GATE-COUNT).",
- "C20": " Added later: CTOR-PARAM (the per-group capacity reaches the location); the throttle gives back only slots it took and every slot it took (THR-PENDING); Adjust keeps the calls in the window (BRK-ADJUST). Known finding: the window has as many elements as ticks, so it reaches back less than one interval (BRK-WINDOW).",
+ "C01": " Added later (DESIGN.md §4, Session 4): a refused replacement puts the old pattern back (IDX-ROLLBACK); writer and reader of the trie combine nested and remaining pairs in the same order (IDX-ORDER); the ancestor walk has a visited set (ANC-ONCE); an empty schedule is no schedule everywhere (SCHED-AGREE); the variable-key branch is tried whether or not the key is literal (IDX-KEYVAR); every sortable element type has a case in Less (LESS-COVERS); picast is idempotent (PICAST-IDEM); SortValues sorts a copy (MOD-INDEX); a candidate that went away during the scan is skipped (LOST-RULE-SKIP); no copy into a zero-length slice (COPY-EMPTY). Known finding: an unsortable event array fails the whole event (IDX-SORT-TOTAL). Session 5: `when` decoded as it is indexed (WHEN-AGREE); a rule-shaped fact does not fail the lookup (RULE-SHAPED-SKIP); no break in the parents loop (LOOP-EXHAUST).",
+ "C02": " Added later: every addition to the term set passes the extractor's own filter (TERM-FILTER); indexed terms come from the prepared fact (TERM-PREPARED). Session 5: the fact index changes only after the last refusal point (FACTIDX-LAST); the length limit applies to every container kind (TERM-FILTER).",
+ "C03": " Added later: TERM-PREPARED (the terms a pattern query relies on are those of the stored fact). Session 5: no Exec writes through the incoming result (QUERY-PURE, MOD-PURE); Bind decides by presence (BIND-PRESENCE).",
+ "C04": " Added later: the thunk builders do not look into the bindings before the thunk runs (THUNK-LAZY); `values` is tested against the action's own disposition (VALUES-OWN-DISP); DecodeString's result depends on the code (DECODE-DEP); IDX-ORDER; SortValues does not reorder the submitted event (MOD-INDEX). Session 5: QUERY-PURE; serial/concurrent decided per rule (FAN-MODE-LOCAL); Copy reaches below arrays (COPY-DEEP); WHEN-AGREE.",
+ "C06": " Added later: memory is written after Storage.Add succeeded or a failed write takes it out again (STORE-BEFORE-MEM; IndexedState.Add is a known finding); storage removal before the fact leaves memory (REM-STORE-FIRST); the add hook runs before Storage.Add (HOOK-BEFORE-STORE); the stored parents list is a value, never nil/aliased (PARENTS-VALUE). Session 5: memory wiped only when storage was (CLEAR-ACK); FACTIDX-LAST; hooks installed before the load (HOOKS-BEFORE-LOAD).",
+ "C07": " Added later: the ttl is consumed when it is turned into expires (EXP-TTL-CONSUMED); the clock is read after the state lock was taken (CLOCK-AFTER-LOCK); an absolute expires is not added to the clock (EXP-ABSOLUTE). Session 5: every ttl encoding is relative to the clock (EXP-TTL-RELATIVE); AddRule canonicalises before it validates (EXP-CANON-FIRST); a parsed instant is not rounded up (EXP-PARSE-EXACT).",
+ "C08": " Added later: TERM-FILTER (the cascade's search terms), REM-STORE-FIRST. Session 5: expiry noticed at load cascades (CASC-LOAD); an id is never a pattern variable (CASC-NOVAR); every property fact names its target in deleteWith (PROP-DW-ANY).",
+ "C09": " Added later: every callback of the ancestor walk re-points the context (ANC-RESTORE); the walk has a visited set, so a diamond of parents is not a duplicate (ANC-ONCE); PARENTS-VALUE; COPY-EMPTY. Session 5: entry methods point the context at their location unconditionally (CTX-ENTRY); scripts run with the context pointed at the running location (CTX-SCRIPT); the visited set is filled on the way back (ANC-ONCE); crolt query values escaped (CROLT-ESCAPE).",
+ "C10": " Added later: rules embedded in an event are refused in a disabled location (GATE-FIRE); STORE-BEFORE-MEM (IndexedState.Add is a known finding); IDX-ROLLBACK. Session 5: an expired predecessor is purged before anything is indexed (ADD-EXPIRES-STALE); PROP-DW-ANY.",
+ "C11": " Added later: the lock-order graph over rulio's mutexes has no cycle (LOCK-ORDER); no append-insert clobbers the tail of a shared slice (APPEND-CLOBBER). Session 5: pending requests are un-counted on every path (PENDING-PAIR); the shared cron's timeline stays sorted (TIMELINE-ORDER); shared code props are copied for each script (SHARED-TO-JS).",
+ "C12": " Added later: LOCK-ORDER; values reachable from shared state are not written by readers (SHARED-WRITE); the failed-open clean-up re-checks under both locks (CACHE-EVICT). Session 5: no unprivileged re-entry into a held state lock (LOCK-REENTRY).",
+ "C13": " Added later: no call hands a dereferencing function the zero value of a variable no store has reached (NIL-ZERO-ARG); the error of the cache's Get originates in opening / the existence check only (CACHE-ERR-ORIGIN). Session 5: structural recursion is position-aware (TERM); LOCK-REENTRY; PENDING-PAIR; a stored rule that cannot be scheduled still loads (HOOK-LOAD-TOLERANT); no typed nil as error (TYPED-NIL); RunJavascript recovers every panic (RECOVER-ALL); the cron parser is called under a recover (PARSE-RECOVER); RULE-SHAPED-SKIP; reserved properties are type-checked at write (PROP-TYPED).",
+ "C14": " Added later: ANC-RESTORE, THUNK-LAZY, every constructor parameter is used (CTOR-PARAM: the per-group script timeout reaches the location). Session 5: RECOVER-ALL, TYPED-NIL.",
+ "C15": " Added later: the cron loop re-arms its timer on every wake-up (CRON-REARM); the timeline stays sorted (TIMELINE-ORDER); the add hook never leaves a refused replacement without its job (HOOK-ADD-KEEPS), unregisters a scheduled rule that is overwritten by something unscheduled (HOOK-REPLACE) and runs before storage is written (HOOK-BEFORE-STORE); a due time from cronexpr is stored only under an IsZero test (CRON-NEXT-ZERO); OneShotSchedule classifies the trimmed schedule (ONESHOT-AGREE); crolt request URLs carry their endpoint (CROLT-URL). Session 5: the removal hook accepts a missing id (HOOK-REM-MISSING); HOOK-LOAD-TOLERANT; CROLT-ESCAPE; the trigger event carries the id as a JSON string (JSON-QUOTE); a job removed or replaced while it runs stays out (CRON-INFLIGHT).",
+ "C16": " Added later: CRON-REARM, TIMELINE-ORDER, CRON-NEXT-ZERO, time.Parse argument order (TIME-PARSE-ARGS), CROLT-URL, every store into Job.at is a UTC time (AT-UTC), writer and deleter of a job agree on the partition (PARTITION-AGREE), bolt errors inside transactions reach the closure's result (BOLT-ERR). Session 5: delete-then-put on crolt's time index (TIMEIDX-ORDER); CROLT-ESCAPE; CRON-INFLIGHT.",
+ "C17": " Added later: get-or-create on the cache table is decided by presence (CACHE-GET-OR-CREATE); the in-use mark counts its users (PENDING-COUNT: known finding); CACHE-EVICT; with CachePending on every new entry is published before the table lock is released (CACHE-PENDING-SHARED); the two cache mutexes are taken in one order (LOCK-ORDER); every checked request looks at the creation marker, cached or not (EXIST-EVERY); Storage.Load does not write the storage object (LOAD-PURE). Session 5: an entry's location is only written with OpenLocation's result (CACHE-LOC-STICKY).",
+ "C19": " Added later: the key gates fail closed when the key cannot be read (GATE-FAILCLOSED); the parent list is handed out only behind CheckRead (GATE-PARENTS); the size of a disabled location is not reported (GATE-COUNT). Session 5: PROP-TYPED; the trusted caller of SetProp passes the location's gates (GATE-UNTRUSTED).",
+ "C20": " Added later: CTOR-PARAM (the per-group capacity reaches the location); the throttle gives back only slots it took and every slot it took (THR-PENDING); Adjust keeps the calls in the window (BRK-ADJUST). Known finding: the window has as many elements as ticks, so it reaches back less than one interval (BRK-WINDOW). Session 5: the all-aged-out branch of slide is not dead (BRK-SLIDE).",
+ "C05": "Session 5: BIND-PRESENCE.",
+ "C18": "Session 5: strings pasted into JSON answers are JSON strings (JSON-QUOTE); a parameter's value decides, not its presence (PARAM-PRESENCE); TYPED-NIL.",
 }
 
 NOT_APPLICABLE = {
